@@ -52,8 +52,8 @@ class FakePool:
 # abstract BAM description
 
 def mk_rec(name, contig, site, rstart, rlen, sample='s1', r1=True, dup=False, qcfail=False, mapq=60, mp='', key='k1',
-           proper=True):
-    return {'name': name, 'contig': contig, 'site': int(site), 'rstart': int(rstart), 'rend': int(rstart + rlen),
+           proper=True, file=1):
+    return {'file': file, 'name': name, 'contig': contig, 'site': int(site), 'rstart': int(rstart), 'rend': int(rstart + rlen),
             'sample': sample, 'r1': r1, 'dup': dup, 'qcfail': qcfail, 'mapq': mapq, 'mp': mp, 'key': key, 'proper': proper}
 
 
@@ -64,8 +64,13 @@ def gen_bam(rng, in_pre=True):
     mfs = rng.choice([0, 3, 10, 30])
     minmq = rng.choice([0, 20, 50])
     recs = []
+    # several libraries (BAM files) given to generate_commands as a list: different cells, the same bins / job boundaries;
+    # "shared": the same cell occurs in two libraries (outside the statement, recorded as an observation)
+    nfiles = rng.choice([1, 1, 1, 2, 2, 3])
+    shared = nfiles > 1 and rng.random() < 0.15
     for t in range(rng.randint(4, 22)):
         ci = rng.randrange(len(contigs))
+        fi = rng.randint(1, nfiles)
         ln = lens[ci]
         rlen = min(rng.choice([1, 4, 8, 15]), ln)
         w = binsz * rng.choice([1, 1, 2, 3, 4, 7])                   # a possible job width
@@ -88,7 +93,10 @@ def gen_bam(rng, in_pre=True):
             mapq = rng.choice([0, max(0, minmq - 1)])
         elif rng.random() < 0.3:
             mapq = minmq                                              # exactly the threshold
-        r = mk_rec('m%d' % t, contigs[ci], site, rstart, rlen, sample=rng.choice(['cellA', 'cellB', 'cellC']),
+        cell = rng.choice(['cellA', 'cellB', 'cellC'])
+        if nfiles > 1 and not (shared and cell == 'cellA'):
+            cell = 'lib%d_%s' % (fi, cell)
+        r = mk_rec('m%d' % t, contigs[ci], site, rstart, rlen, sample=cell, file=fi,
                    dup=kind == 'dup', qcfail=kind == 'qcfail', mapq=mapq,
                    mp={'mp_multi': 'multi', 'mp_unique': 'unique'}.get(kind, ''), key=rng.choice(['ref', 'alt']),
                    proper=rng.random() < 0.8)
@@ -98,16 +106,27 @@ def gen_bam(rng, in_pre=True):
             m['rstart'] = max(0, min(ln - rlen, r['rstart'] + rng.randint(0, 20)))
             m['rend'] = m['rstart'] + rlen
             recs.append(m)
-    return {'contigs': contigs, 'lens': lens, 'recs': recs}, binsz, mfs, minmq
+    return {'contigs': contigs, 'lens': lens, 'nfiles': nfiles, 'recs': recs}, binsz, mfs, minmq
 
 
-def write_bam(path, bam):
+def write_bams(tmp, bam):
+    """One BAM per library (record field `file`); returns the path (one library) or the list of paths."""
+    paths = []
+    for fi in range(1, bam.get('nfiles', 1) + 1):
+        p = os.path.join(tmp, 'x%d.bam' % fi)
+        write_bam(p, bam, fi)
+        paths.append(p)
+    return paths[0] if len(paths) == 1 else paths
+
+
+def write_bam(path, bam, fi=1):
     header = bamgen.make_header(list(zip(bam['contigs'], bam['lens'])))
     segs = []
     names = {}
-    for r in bam['recs']:
+    mine = [r for r in bam['recs'] if r.get('file', 1) == fi]
+    for r in mine:
         names.setdefault(r['name'], []).append(r)
-    for r in bam['recs']:
+    for r in mine:
         mates = [x for x in names[r['name']] if x is not r]
         tags = {'SM': r['sample'], 'DS': r['site'], 'DA': r['key']}
         if r['mp']:
@@ -154,7 +173,7 @@ def run_gbc(bbc, path, binsz, regions):
     multiprocessing.Pool = FakePool
     try:
         with contextlib.redirect_stdout(io.StringIO()):
-            df = bbc.get_binned_counts([path], binsz, regions=regions, n_threads=1)
+            df = bbc.get_binned_counts(path if isinstance(path, list) else [path], binsz, regions=regions, n_threads=1)
         for idx, row in df.iterrows():
             for sample, v in row.items():
                 if v == v and v != 0:
@@ -179,8 +198,7 @@ def main():
     out, tier = sys.argv[1], sys.argv[2]
     import singlecellmultiomics.bamProcessing.bamBinCounts as bbc
     tmp = tempfile.mkdtemp(prefix='c12_', dir=os.getcwd())
-    path = os.path.join(tmp, 'x.bam')
-    state = {'tid': 0, 'group': 0}
+    state = {'tid': 0, 'group': 0, 'path': None}
     with open(out, 'w') as f:
         def emit(e):
             state['tid'] += 1
@@ -188,15 +206,16 @@ def main():
             f.write(json.dumps(e, separators=(',', ':')) + '\n')
 
         def run(cfg, pool, threads, order_seed):
-            raised, rows = run_counts(bbc, path, cfg, pool, threads, order_seed)
+            raised, rows = run_counts(bbc, state['path'], cfg, pool, threads, order_seed)
             emit({'ev': 'run', 'group': state['group'], 'cfg': cfg, 'pool': pool, 'threads': threads,
                   'order_seed': order_seed, 'raised': raised, 'counts': rows})
 
         if tier == 'replay':
             with open(sys.argv[3]) as rf:
                 case = json.load(rf)['case']['event']
-            write_bam(path, case['bam'])
-            emit({'ev': 'bam', 'contigs': case['bam']['contigs'], 'lens': case['bam']['lens'], 'recs': case['bam']['recs']})
+            path = state['path'] = write_bams(tmp, case['bam'])
+            emit({'ev': 'bam', 'contigs': case['bam']['contigs'], 'lens': case['bam']['lens'],
+                  'nfiles': case['bam'].get('nfiles', 1), 'recs': case['bam']['recs']})
             if case['ev'] == 'run':
                 if case.get('first'):        # Inv_C12_Invariant compares with the first run of the group
                     state['group'] = case['group']
@@ -218,9 +237,9 @@ def main():
                 by_recs.setdefault(json.dumps([s['recs'], s['contigs'], s['lens']], sort_keys=True), []).append(s)
             for k, group in by_recs.items():
                 recs, contigs, lens = json.loads(k)
-                bam = {'contigs': contigs, 'lens': lens,
-                       'recs': [dict(r, name='t%d' % i, proper=True) for i, r in enumerate(recs)]}
-                write_bam(path, bam)
+                bam = {'contigs': contigs, 'lens': lens, 'nfiles': max([r.get('file', 1) for r in recs] + [1]),
+                       'recs': [dict(r, name='t%d' % i, proper=True, file=r.get('file', 1)) for i, r in enumerate(recs)]}
+                path = state['path'] = write_bams(tmp, bam)
                 emit(dict(bam, ev='bam', source='tlc_scenario'))
                 groups = {}
                 for s in group:
@@ -235,7 +254,7 @@ def main():
             for b in range(nbam):
                 in_pre = rng.random() < 0.85
                 bam, binsz, mfs, minmq = gen_bam(rng, in_pre)
-                write_bam(path, bam)
+                path = state['path'] = write_bams(tmp, bam)
                 emit(dict(bam, ev='bam', source='random', seed=seed, bam_index=b))
                 usekey = rng.random() < 0.4
                 state['group'] += 1
@@ -244,7 +263,7 @@ def main():
                 base = {'bin': binsz, 'mfs': mfs, 'minmq': minmq, 'dedup': True, 'kwargs': 'empty', 'usekey': usekey}
                 for i, bpj in enumerate(bpjs):
                     real = i >= len(bpjs) - nreal
-                    run(dict(base, bpj=bpj), 'real' if real else 'fake', rng.choice([1, 2, 4]) if real else 1,
+                    run(dict(base, bpj=bpj), 'real' if real else 'fake', rng.choice([1, 2, 4, 4]) if real else 1,
                         rng.randrange(1 << 30))
                 if b % 5 == 0:      # the documented default kwargs=None of generate_commands
                     state['group'] += 1
